@@ -166,6 +166,99 @@ def same_time_starts(rng, n):
     return out
 
 
+def waiter_list_correspondence(ctx, n):
+    """WaiterList.v against the real `Notification`: random histories of subscribe / unsubscribe / awake_next / awake_all
+    are executed on a real Notification under a stand-in loop that records `schedule` calls (and marks the signal as
+    scheduled, like Loop.schedule), and through the Coq function `run`; scheduled pairs in order, the remaining waiting
+    list, the revoked tokens and the number of errors must be equal"""
+    from usim._primitives.notification import Notification, NoSubscribers
+    from usim._core.loop import Interrupt
+    from usim._core.handler import __USIM_STATE__ as state
+    from harness.check import parse_nat_list
+    rng = ctx.rng
+
+    class FakeLoop:
+        time = 0
+
+        def __init__(self):
+            self.log = []
+
+        def schedule(self, target, signal=None, *, delay=None, at=None):
+            self.log.append((target, signal))
+            if signal is not None:
+                signal.scheduled = True
+    cases = []
+    for _ in range(n):
+        loop, note = FakeLoop(), Notification()
+        toks, subs, ops = {}, [], []
+        revoked, errors = [], 0
+        with state.assign(loop):
+            for _ in range(rng.randint(0, 12)):
+                c = rng.random()
+                if c < 0.45 or not subs:
+                    w, t = rng.randint(1, 4), len(toks) + 1
+                    toks[t] = Interrupt(t)
+                    subs.append((w, t))
+                    ops.append('Sub %d %d' % (w, t))
+                    note.__subscribe__(w, toks[t])
+                elif c < 0.7:
+                    w, t = rng.choice(subs)
+                    if rng.random() < 0.1:
+                        w = w + 5          # a pair that was never subscribed (unless already scheduled: then it is revoked)
+                    ops.append('Unsub %d %d' % (w, t))
+                    try:
+                        was = toks[t].scheduled
+                        note.__unsubscribe__(w, toks[t])
+                        if was:
+                            revoked.append(t)
+                    except ValueError:
+                        errors += 1
+                elif c < 0.88:
+                    ops.append('AwakeNext')
+                    try:
+                        note.__awake_next__()
+                    except NoSubscribers:
+                        pass
+                else:
+                    ops.append('AwakeAll')
+                    note.__awake_all__()
+        tid = {id(v): k for k, v in toks.items()}
+        sched = [(w, tid[id(sig)]) for w, sig in loop.log]
+        waiting = [(w, tid[id(sig)]) for w, sig in note._waiting]
+        note._waiting.clear()       # (the debug __del__ complains about waiters that are never released)
+        cases.append((ops, sched, waiting, revoked, errors))
+        # independent oracle from the text (waiters are served in the order in which they started waiting, nobody is served
+        # who did not subscribe): scheduled ++ waiting is a subsequence of the subscriptions in the order they were made
+        it = iter(subs)
+        if not all(any(x == y for y in it) for x in sched + waiting):
+            ctx.fail({'notification_history': ops}, 'a Notification driven through %r scheduled %r and keeps %r waiting: not in '
+                     'the order of the subscriptions %r' % (ops, sched, waiting, subs), family='waiter-list')
+
+    def pl(l):
+        return '[%s]' % '; '.join('(%d, %d)' % p for p in l)
+    text = ['From Coq Require Import List Arith.', 'From Usim Require Import WaiterList.', 'Import ListNotations.',
+            'Definition cases : list (list op * (list sub * list sub) * (list nat * nat)) := [%s].' % ';\n  '.join(
+                '([%s], (%s, %s), ([%s], %d))' % ('; '.join(o), pl(sc), pl(w), '; '.join(map(str, rv)), er)
+                for o, sc, w, rv, er in cases),
+            'Definition same (s : wl) (x : (list sub * list sub) * (list nat * nat)) : bool :=',
+            '  let \'((sc, w), (rv, er)) := x in',
+            '  if list_eq_dec (prod_eq_dec_nat) (scheduled s) sc then if list_eq_dec prod_eq_dec_nat (waiting s) w then',
+            '  if list_eq_dec Nat.eq_dec (revoked s) rv then Nat.eqb (errors s) er else false else false else false.',
+            'Fixpoint bad (i : nat) (l : list (list op * (list sub * list sub) * (list nat * nat))) : list nat :=',
+            '  match l with [] => [] | (o, a, b) :: r => (if same (run o) (a, b) then [] else [i]) ++ bad (S i) r end.',
+            'Eval vm_compute in (bad 0 cases).']
+    text.insert(3, 'Definition prod_eq_dec_nat (a b : nat * nat) : {a = b} + {a <> b}.\nProof. decide equality; apply Nat.eq_dec. Defined.')
+    path = ctx.write_case_file('waiter_list', '\n'.join(text) + '\n')
+    rc, out = ctx.run_case_files([path])[path]
+    bad = parse_nat_list(out) if rc == 0 else None
+    ctx.bump('family:waiter-list-correspondence', n)
+    if bad is None:
+        ctx.mismatch('waiter-list', None, None, None, 'case file did not evaluate: %s' % out[-400:])
+    else:
+        for i in bad:
+            ctx.mismatch('waiter-list', {'ops': cases[i][0]}, cases[i][1:], 'model differs', '')
+
+
 def teardown_order(rng, n):
     """a scope with several children is torn down (the body raises, the notification fires, the owner is cancelled): the
     children are closed in the order in which they were started, visible through the cleanup code of each"""
@@ -325,6 +418,7 @@ def run(ctx):
                                  gen.many_timers(ctx.rng, ctx.n(30, 400)))
     differential(ctx, scs, impl)
     direct_programs(ctx)
+    waiter_list_correspondence(ctx, ctx.n(300, 3000))
 
 
 def search(ctx):
